@@ -635,8 +635,52 @@ def gen_sample(rng):
                 normalized=bool(rng.random() < .5), np_seed=int(rng.integers(0, 2 ** 31 - 1)), zeros=zeros)
 
 
+def gen_history(rng):
+    names = ["lambda_mst", "gamma_ppn", "a_ani", "beta_inf", "gamma_in", "log_m2l", "gamma_pl", "not_a_parameter"]
+    k = int(rng.integers(1, 5))
+    priors = [[str(n), float(np.round(rng.uniform(-1, 2), 3)), float(np.round(rng.uniform(0.05, 1.0), 3))] for n in rng.choice(names, k, replace=True)]
+    seq = []
+    for _ in range(int(rng.integers(2, 6))):
+        have = [n for n in names[:-1] if rng.random() < 0.5]
+        seq.append({n: float(np.round(rng.uniform(-1, 3), 3)) for n in have})
+    return dict(stream="history", priors=priors, seq=seq, via_lens=bool(rng.random() < 0.4))
+
+
+def run_history(rec, inp):
+    """ONE prior object (and one lens carrying it) evaluated several times in a row with DIFFERENT sets of realised parameters: every call
+    must be the formula over the parameters realised in THAT call (a lens without anisotropy sampling realises a_ani / beta_inf only when they
+    are handed over)."""
+    from hierarc.Likelihood.prior_likelihood import PriorLikelihood
+    pl = PriorLikelihood(prior_list=[list(p) for p in inp["priors"]])
+    for j, real in enumerate(inp["seq"]):
+        ref = prior_sum(inp["priors"], real)
+        try: v = float(pl.log_likelihood(dict(real)))
+        except Exception as e:
+            rec.violation("C20:history:raises", "the prior object raised on call %d of a sequence" % j, dict(inp, call=j), repr(e)[:160], ref); return True
+        rec.check(abs(v - ref) <= 1e-9 * max(1.0, abs(ref)), "C20:history:value", "call %d on the same prior object is not the formula over the parameters realised in that call" % j,
+                  dict(inp, call=j), v, ref)
+    if inp["via_lens"]:
+        from hierarc.Likelihood.hierarchy_likelihood import LensLikelihood
+        base = dict(z_lens=0.5, z_source=1.5, likelihood_type="DdtGaussian", ddt_mean=3000., ddt_sigma=200.)
+        pri = [p for p in inp["priors"] if p[0] in ("lambda_mst", "gamma_ppn", "a_ani", "beta_inf")]
+        with_p = LensLikelihood(prior_list=[list(p) for p in pri], **base); without = LensLikelihood(**base)
+        c = cosmo()
+        for j, real in enumerate(inp["seq"]):
+            kl = dict(lambda_mst=real.get("lambda_mst", 1.0), gamma_ppn=real.get("gamma_ppn", 1.0))
+            kk = {n: real[n] for n in ("a_ani", "beta_inf") if n in real}
+            realised = dict(kl, **kk)
+            ref = prior_sum(pri, realised)
+            try: d = fscalar(with_p.lens_log_likelihood(c, kwargs_lens=kl, kwargs_kin=kk)) - fscalar(without.lens_log_likelihood(c, kwargs_lens=kl, kwargs_kin=kk))
+            except Exception as e:
+                rec.violation("C20:history:raises", "a lens carrying a prior raised on call %d of a sequence" % j, dict(inp, call=j, lens=True), repr(e)[:160], ref); return True
+            rec.check(abs(d - ref) <= 1e-8 * max(1.0, abs(ref)), "C20:history:lens_value", "call %d on the same lens: prior term is not the formula over the parameters realised in that call" % j,
+                      dict(inp, call=j, lens=True), d, ref)
+    return len({frozenset(r) for r in inp["seq"]}) > 1
+
+
 def run_case(rec, inp):
     s = inp.get("stream")
+    if s == "history": return run_history(rec, inp)
     if s == "single": return run_single(rec, inp)
     if s == "sample": return run_sample(rec, inp)
     if s == "emitted": return run_emitted(rec, inp)
@@ -657,6 +701,14 @@ def main():
         rec.write(args.out)
         return
     n_single, n_sample, n_emit = (500, 120, 40) if args.tier == "quick" else (10000, 2400, 500)
+    rngh = rng_of(args.seed, 21)
+    for i in range(60 if args.tier == "quick" else 1200):
+        try:
+            inp = gen_history(rngh)
+            nt = run_case(rec, inp)
+            rec.case(dict(i=i, priors=inp["priors"], calls=len(inp["seq"]), via_lens=inp["via_lens"]), nontrivial=bool(nt), kind="history|%s" % ("lens" if inp["via_lens"] else "object"))
+        except Exception:
+            rec.error(traceback.format_exc(limit=6))
     rng = rng_of(args.seed, 20)
     for i in range(n_single + n_sample + n_emit):
         try:
